@@ -13,7 +13,7 @@ Lemma y_run : run_ok empty_st y_ops = Some y_s. Proof. vm_compute; reflexivity. 
 
 Lemma y_rank : Rank y_s.
 Proof.
-  intros a k Hk. destruct a as [|[|[|a]]]; vm_compute in Hk.
+  apply addr_rank_rank. intros a k Hk. destruct a as [|[|[|a]]]; vm_compute in Hk.
   - destruct Hk.
   - destruct Hk as [<-|[]]. lia.
   - destruct Hk.
